@@ -200,6 +200,13 @@ package parse
 //@   maypanic
 //@   assert @store:F.sysl.Endpoint.Stmt [call-recorded-on-the-published-event] len(stored) > 0 ==> in(eventName, srcApp.Endpoints) && target == srcApp.Endpoints[eventName]
 
+// Closing a block stamps the block's end only on a statement that was added while the block was open (the scope stack
+// remembers the last statement present when the scope was entered): re-opening an endpoint without adding statements
+// cannot move the end of a statement declared elsewhere.
+//@ func (*TreeShapeListener).popScope
+//@   maypanic
+//@   assert @store:F.sysl.SourceContext.End [only-a-statement-added-in-this-block-is-closed] top != s.stmt_scope_mark[l]
+
 // Leaving an endpoint block (REST method, simple endpoint, event, subscription) leaves no endpoint current: the end-of-
 // block bookkeeping of the next construct (which stamps the end position of `Endpoints[endpointName]`) cannot reach an
 // endpoint that was closed earlier, possibly in another file.
